@@ -159,6 +159,10 @@ var (
 	// exported driver.Shared, wrap / override entries.
 	custom   driver.Base
 	customOK bool
+	// sharedMapDrv is what a caller gets who passes the exported table itself:
+	// driver.Base{RenderFNs: driver.Shared}. Whatever the library writes into a
+	// driver's map would land in the exported package-level table.
+	sharedMapDrv driver.Base
 
 	errInjected = errors.New("injected callback error")
 )
@@ -180,6 +184,7 @@ func slotNow() int {
 func ensureDrivers(cold bool) {
 	if !customOK {
 		custom = buildCustom()
+		sharedMapDrv = driver.Base{RenderFNs: driver.Shared}
 		customOK = true
 	}
 	if !cold && !sharedDrvOK {
@@ -224,6 +229,19 @@ func wrapFN(fn driver.RenderFN) driver.RenderFN {
 		}
 		return fn(l, r)
 	}
+}
+
+// docBytes returns ONE byte slice per distinct JSON document of the current scenario,
+// shared by every task that decodes it (callers do keep request bodies around and
+// decode them from several goroutines). The library must only read it; runScenario
+// checks afterwards that the bytes are what they were.
+var docPool map[string][]byte
+
+func docBytes(doc string) []byte {
+	if b, ok := docPool[doc]; ok {
+		return b
+	}
+	return []byte(doc) // not registered (replayed / edited scenario): private copy
 }
 
 // ---- one operation ------------------------------------------------------------
@@ -279,6 +297,11 @@ func doCall(op *Op, e *expr.Expression, canon func(func() string) string) (strin
 		f := func() string { return strconv.Quote(s) + "|" + canonParams(ps) + "|" + errText(err) }
 		return canon(f), f
 	case KRender:
+		if op.MapDrv {
+			s, err := sharedMapDrv.Render(e)
+			f := func() string { return strconv.Quote(s) + "|" + errText(err) }
+			return f(), f
+		}
 		d := sharedDrv
 		if op.Fresh || !sharedDrvOK {
 			d = driver.NewPostgresDriver()
@@ -287,6 +310,11 @@ func doCall(op *Op, e *expr.Expression, canon func(func() string) string) (strin
 		f := func() string { return strconv.Quote(s) + "|" + errText(err) }
 		return f(), f
 	case KRenderParam:
+		if op.MapDrv {
+			s, ps, err := sharedMapDrv.RenderParam(e)
+			f := func() string { return strconv.Quote(s) + "|" + canonParams(ps) + "|" + errText(err) }
+			return canon(f), f
+		}
 		d := sharedDrv
 		if op.Fresh || !sharedDrvOK {
 			d = driver.NewPostgresDriver()
@@ -332,7 +360,7 @@ func doCall(op *Op, e *expr.Expression, canon func(func() string) string) (strin
 		return f(), f
 	case KUnmarshal:
 		x := new(expr.Expression)
-		err := json.Unmarshal([]byte(op.Query), x)
+		err := json.Unmarshal(docBytes(op.Query), x)
 		f := func() string {
 			if err != nil {
 				return errText(err)
